@@ -116,6 +116,13 @@ def handle (line : String) : String :=
       | some m => s!"returns marked={m.length}"
       | none => "never-returns"
     | none => "bad-op"
+  | ["renamesearch", n] =>
+    match n.toNat? with
+    | some n =>
+      match renameSearch renameSearchPathGuard (fun i => [(i + 1) % (max n 1)]) (n + 2) [] 0 with
+      | some _ => "returns"
+      | none => "never-returns"
+    | none => "bad-op"
   | ["nesting", kind, n] =>
     match n.toNat?, nestingLimits.lookup (kind.replace "_" " ") with
     | some n, some lim =>
